@@ -163,8 +163,8 @@ fn c17(ctx: &VariantCtx) -> WorldOutcome {
     crate::sampworld::c17_run(if ctx.tier == Tier::Thorough { 40 } else { 12 })
 }
 
-fn c10_transport(_ctx: &VariantCtx) -> WorldOutcome {
-    crate::netrecv::c10_transport()
+fn c10_transport(ctx: &VariantCtx) -> WorldOutcome {
+    crate::netrecv::c10_transport(&ctx.property)
 }
 
 fn c14(ctx: &VariantCtx) -> WorldOutcome {
@@ -251,6 +251,7 @@ pub fn variants(property: &str, _tier: Tier) -> Vec<Variant> {
         "C19" => vec![
             Variant { name: "wire", weight: 24, max_events: 100_000, run: c19_wire },
             Variant { name: "cluster-monitor", weight: 1, max_events: 400_000, run: c19_cluster },
+            Variant { name: "transport-receive", weight: 3, max_events: 100_000, run: c10_transport },
         ],
         "C14" => vec![Variant { name: "repair", weight: 1, max_events: 150_000, run: c14 }],
         "C15" => vec![
@@ -335,7 +336,7 @@ pub fn plan(property: &str, tier: Tier) -> Option<Plan> {
         "C09" => (if q { 4_000 } else { 200_000 }, if q { 120 } else { 1500 }, "exploration",
             "two variants: (1) forge: valid votes and certificates (3-10 validators, drawn stakes, signer subsets just below/at/above 60%/80%, mixed certificates incl. a signer in both halves) are altered on the wire by chains of 1-3 structured mutations (kind, slot, hash, signer, signer set, bitmask length/word count, out-of-range signer bit, signature bytes, foreign signature, halves swapped/moved, inflated declared stake) and offered to ValidatedVote/ValidatedCert::try_new; the verdict must equal an independent one (signature bytes equal the honest signature/aggregation of exactly the named signers over exactly this kind/slot/hash, bitmask length = validator count, distinct stake >= threshold) and never panic; (2) cluster-forger: the same forgeries plus byte corruption are injected at real nodes while normal traffic flows and every certificate a correct node (re-)broadcasts must validate; non-trivial = at least one mutation applied; distinct = set of mutation classes x outcome counts"),
         "C19" => (if q { 6_000 } else { 300_000 }, if q { 120 } else { 1500 }, "exploration",
-            "two variants: (1) wire: every message kind (five vote kinds; five certificate types for 1..2048 validators with the highest index set and both halves populated; shreds of all four shredders at boundary payload sizes; repair requests/responses with proofs for 1..1024 slices; transactions 0..512 bytes) is encoded, checked <= 1500 bytes, decoded and re-encoded identically, rejected with a trailing byte, rejected with out-of-range slice/shred indices, and corrupted/truncated/extended at byte level (decoder must reject or yield a stable re-encoding, never panic); plus arbitrary byte strings offered to all five decoders; (2) cluster-monitor: the same size and round-trip monitor on every message real nodes emit during cluster runs with receiver-side byte corruption; distinct = (kind, encoded sizes)"),
+            "three variants: (3) transport-receive: the datagram scripts of C10's transport variant (valid messages interleaved with trailing-byte, truncated, oversize and foreign datagrams) against SimulatedNetwork::receive and UdpNetwork::receive on loopback: exactly the datagrams that decode exactly may come out; (1) wire: every message kind (five vote kinds; five certificate types for 1..2048 validators with the highest index set and both halves populated; shreds of all four shredders at boundary payload sizes; repair requests/responses with proofs for 1..1024 slices; transactions 0..512 bytes) is encoded, checked <= 1500 bytes, decoded and re-encoded identically, rejected with a trailing byte, rejected with out-of-range slice/shred indices, and corrupted/truncated/extended at byte level (decoder must reject or yield a stable re-encoding, never panic); plus arbitrary byte strings offered to all five decoders; (2) cluster-monitor: the same size and round-trip monitor on every message real nodes emit during cluster runs with receiver-side byte corruption; distinct = (kind, encoded sizes)"),
         _ => return None,
     };
     if matches!(property, "C09" | "C19") {
